@@ -361,7 +361,7 @@ Definition migrate_by_locator (src dst : db) (t : Z) : option db :=
   Some (set_locators_by_uid d3 nvar iatt t 0).
 
 (* ACalcDbToDb::_expandInformation (ACalcDbToDb.cpp:385); result false = error return (1) *)
-Definition expand_information (mode t : Z) (s : st) : bool * st :=
+Definition expand_information (mode t : Z) (reg : bool) (s : st) : bool * st :=
   let din := getdb WIn s in let dout := getdb WOut s in
   let ninfo := if d_grid dout && (t =? L_X) then ndim dout else locnum dout t in
   if ninfo <=? 0 then (true, s) else
@@ -369,7 +369,10 @@ Definition expand_information (mode t : Z) (s : st) : bool * st :=
   if negb (d_grid dout) then (false, s) else
   if 0 <? mode then
     match migrate_by_locator dout din t with
-    | Some d' => (true, setdb WIn d' s)
+    | Some d' =>
+        let s1 := setdb WIn d' s in
+        (true, if reg then with_book s1 (store_in_list WIn 2 (seqz (d_nuid din) (Z.to_nat (d_nuid d' - d_nuid din))) (s_book s1))
+               else s1)
     | None => (false, s)
     end
   else (true, setdb WIn (delete_by_locator din t) s).
@@ -403,10 +406,15 @@ Inductive op :=
 | OClean (status : Z)
 | ORename (w : which) (names : st -> list str) (tin : Z) (nvar : st -> Z) (slot : nat) (off : Z)
           (qual : str) (count : st -> Z) (flagloc : bool)
-| OSaveX             (* _nameCoord = dbin->getNamesByLocator(ELoc::X) *)
 | ORestoreX          (* if (!_nameCoord.empty()) dbin->setLocators(_nameCoord, ELoc::X, 0) *)
-| OCenter            (* _centerDataToGrid(dbgrid) *)
-| OExpand (mode t : Z)
+| OCenter            (* _nameCoord = dbin->getNamesByLocator(ELoc::X); _centerDataToGrid(dbgrid): one step, nothing can
+                        fail between the two statements (CalcKriging.cpp:156, CalcSimuTurningBands.cpp, CalcKrigingFactors.cpp:95) *)
+| OExpand (mode t : Z) (reg : bool)
+                     (* _expandInformation(mode, t); reg: the variables it creates in dbin are registered as temporary
+                        (only with fixes/C19_7.patch; read in the source by checks/C19.py) *)
+| OFail              (* "return false" (a test of _preprocess on options / kind of Db) *)
+| OClearLoc (w : which) (t : Z)                       (* db->clearLocators(t) *)
+| OSetLocList (w : which) (us : list Z) (t : Z)      (* db->setLocatorsByUID(us, t, 0) *)
 | OSetLocs (w : which) (slot : nat) (n : st -> Z) (t : Z)   (* db->setLocatorsByUID(n, slot, t, 0) *)
 | OBody (tag : Z)    (* the numerical body: writes (only) into the registered variables *)
 | OWrite (w : which) (slot : nat) (n : st -> Z) (tag : Z).
@@ -432,15 +440,17 @@ Definition exec_op (nc : namconv) (o : op) (s : st) : bool * st :=
   | ORename w names tin nvar slot off qual count flagloc =>
       let start := if get_slot s slot <? 0 then -1 else get_slot s slot + off in
       (true, rename_variable nc w (names s) tin (nvar s) start qual (count s) flagloc s)
-  | OSaveX =>
-      let b := s_book s in
-      (true, with_book s (mkbook (b_perm_in b) (b_perm_out b) (b_temp_in b) (b_temp_out b)
-                                 (names_by_locator (getdb WIn s) L_X)))
   | ORestoreX =>
       let nm := b_name_coord (s_book s) in
       (true, if is_nil nm then s else setdb WIn (set_locators_by_names (getdb WIn s) nm L_X 0) s)
-  | OCenter => (true, center_data_to_grid s)
-  | OExpand mode t => expand_information mode t s
+  | OCenter =>
+      let b := s_book s in
+      (true, center_data_to_grid (with_book s (mkbook (b_perm_in b) (b_perm_out b) (b_temp_in b) (b_temp_out b)
+                                                     (names_by_locator (getdb WIn s) L_X))))
+  | OExpand mode t reg => expand_information mode t reg s
+  | OFail => (false, s)
+  | OClearLoc w t => (true, setdb w (clear_locators (getdb w s) t) s)
+  | OSetLocList w us t => (true, setdb w (set_locs_list (getdb w s) us t 0) s)
   | OSetLocs w slot n t => (true, setdb w (set_locators_by_uid (getdb w s) (n s) (get_slot s slot) t 0) s)
   | OBody tag =>
       let s1 := setdb WIn (write_cols (getdb WIn s) (all_registered WIn s) tag) s in
@@ -470,13 +480,15 @@ Fixpoint exec_quiet (nc : namconv) (ops : list op) (s : st) : st :=
   | o :: r => exec_quiet nc r (snd (exec_op nc o s))
   end.
 
-Record calc := mkcalc { k_nc : namconv; k_check : st -> bool;
+(* k_init: what _check does to the Dbs before testing anything (CalcKrigingFactors only) *)
+Record calc := mkcalc { k_nc : namconv; k_init : list op; k_check : st -> bool;
                         k_pre : list op; k_run : list op; k_post : list op; k_rollback : list op }.
 
 (* ACalculator::run (ACalculator.cpp:27).  fs: stage at which a failure is injected
    (0 none, 1 check, 2 preprocess, 3 run, 4 postprocess), fk: operations done in that stage before *)
 Definition budget_of (fs stage : Z) (fk : nat) : option nat := if fs =? stage then Some fk else None.
-Definition calc_run (c : calc) (s0 : st) (fs : Z) (fk : nat) : bool * st :=
+Definition calc_run (c : calc) (s00 : st) (fs : Z) (fk : nat) : bool * st :=
+  let s0 := exec_quiet (k_nc c) (k_init c) s00 in
   let fail s := (false, exec_quiet (k_nc c) (k_rollback c) s) in
   if negb (k_check c s0) then fail s0 else
   if fs =? 1 then fail s0 else
@@ -488,7 +500,8 @@ Definition calc_run (c : calc) (s0 : st) (fs : Z) (fk : nat) : bool * st :=
   if negb ok3 then fail s3 else (true, s3).
 
 (* stage at which [calc_run] fails: 0 = success, 1..4 *)
-Definition failing_stage (c : calc) (s0 : st) (fs : Z) (fk : nat) : Z :=
+Definition failing_stage (c : calc) (s00 : st) (fs : Z) (fk : nat) : Z :=
+  let s0 := exec_quiet (k_nc c) (k_init c) s00 in
   if negb (k_check c s0) then 1 else
   if fs =? 1 then 1 else
   let '(ok1, s1) := exec_ops (k_nc c) (k_pre c) s0 (budget_of fs 2 fk) in
